@@ -35,7 +35,7 @@ def run_net(ctx, keys_for_pid, scripts_cap=None, parts=("honest_exh", "honest_si
     else:
         runs.append(("net_exh", dict(MaxSteps=12, MaxBlocks=9, Now=9, DumpEvery=60), dict(workers=12, timeout=2400), dict(nval=3, pcT=2, now=9)))
     # deeper than the exhaustive bounds (forks older than the sampled heights: honest peer banned; finality on forks)
-    runs.append(("net_sim", dict(MaxSteps=30, MaxBlocks=16, MaxHeight=10, Now=24, DumpEvery=1, SkipDiscard="TRUE", SlotSpan=3),
+    runs.append(("net_sim", dict(MaxSteps=30, MaxBlocks=16, MaxHeight=10, Now=24, DumpEvery=1, SkipDiscard="TRUE", SlotSpan=3, MaxRestart=1),
                  dict(workers=1, timeout=900, simulate=200 if quick else 2000, depth=32, seed=ctx.seed), dict(nval=3, pcT=2, now=24)))
     # one Byzantine validator of four (weight 1/4 < 1/3): forges on any parent with any claimed maxHeightGenerated, several
     # blocks per height, announces them in any order and serves their chains; Agreement / TreeSafety must still hold
@@ -49,7 +49,7 @@ def run_net(ctx, keys_for_pid, scripts_cap=None, parts=("honest_exh", "honest_si
                  dict(workers=1, timeout=900, simulate=150 if quick else 1500, depth=36, seed=ctx.seed + 11), dict(hbyz, now=30)))
     part_of = dict(net_exh="honest_exh", net_sim="honest_sim", net_byz_exh="byz_exh", net_byz_sim="byz_sim")
     runs = [r for r in runs if part_of[r[0]] in parts]
-    total = dict(scripts=0, steps=0, forges=0, delivers=0, byzantine_forges=0, byzantine_delivers=0, scripts_with_finality=0, finalized_prefix_pairs_compared=0)
+    total = dict(scripts=0, steps=0, forges=0, delivers=0, restarts=0, byzantine_forges=0, byzantine_delivers=0, scripts_with_finality=0, finalized_prefix_pairs_compared=0)
     branches = {}; syncs = {}
     sample = None
     cap = scripts_cap or (250 if quick else 3000)
@@ -98,6 +98,6 @@ def run_net(ctx, keys_for_pid, scripts_cap=None, parts=("honest_exh", "honest_si
     need_fin = "honest_sim" in parts
     if not ctx.violations and (total["delivers"] < 100 or branches.get("differentchain", 0) < 10 or (need_fin and total["scripts_with_finality"] == 0)):
         raise Inconclusive("network scripts did not exercise enough (delivers / syncs / finality): vacuous")
-    return dict(net_byzantine_blocks=total["byzantine_forges"], net_byzantine_announcements=total["byzantine_delivers"], net_scripts=total["scripts"], net_steps=total["steps"], net_forges=total["forges"], net_delivers=total["delivers"],
+    return dict(net_byzantine_blocks=total["byzantine_forges"], net_byzantine_announcements=total["byzantine_delivers"], net_scripts=total["scripts"], net_restarts=total["restarts"], net_steps=total["steps"], net_forges=total["forges"], net_delivers=total["delivers"],
                 net_branches=branches, net_sync_outcomes=syncs, net_scripts_with_finality=total["scripts_with_finality"],
                 net_finalized_prefix_pairs_compared=total["finalized_prefix_pairs_compared"], net_sample=(sample or [])[:4])
